@@ -424,6 +424,19 @@ pub fn hist<F: BoolExt>(args: &Args) {
         }
         let steps = 8 + rng.below(steps_max);
         let mut substs: Vec<(Subst<F>, Vec<(u32, Slot)>)> = Vec::new();
+        // stress mode: a few fixed literal sets / variable sets, so that the very
+        // same (operator, operand, cube) triple is requested again and again
+        let fixed_lits: Vec<Vec<(u32, bool)>> = (0..3)
+            .map(|_| {
+                let mut l = Vec::new();
+                for v in 0..n0 {
+                    if rng.chance(1, 2) {
+                        l.push((v, rng.chance(1, 2)));
+                    }
+                }
+                l
+            })
+            .collect();
         for _ in 0..steps {
             if s.dead {
                 break;
@@ -492,10 +505,11 @@ pub fn hist<F: BoolExt>(args: &Args) {
             } else if c < 66 {
                 // quantification / family operations
                 if F::HAS_QUANT {
-                    let vs: Vec<(u32, bool)> = (0..s.n)
-                        .filter(|_| rng.chance(1, 3))
-                        .map(|v| (v, true))
-                        .collect();
+                    let vs: Vec<(u32, bool)> = if stress {
+                        fixed_lits[rng.below(3)].iter().map(|&(v, _)| (v, true)).collect()
+                    } else {
+                        (0..s.n).filter(|_| rng.chance(1, 3)).map(|v| (v, true)).collect()
+                    };
                     if let Some(cs) = cube(&mut s, &vs) {
                         let q = ["exists", "forall", "unique"][rng.below(3)];
                         let a = pick(&mut rng, &live);
@@ -545,9 +559,13 @@ pub fn hist<F: BoolExt>(args: &Args) {
             } else if c < 72 {
                 // restrict by a random literal cube
                 let mut lits: Vec<(u32, bool)> = Vec::new();
-                for v in 0..s.n {
-                    if rng.chance(1, 3) {
-                        lits.push((v, rng.chance(1, 2)));
+                if stress {
+                    lits = fixed_lits[rng.below(3)].clone();
+                } else {
+                    for v in 0..s.n {
+                        if rng.chance(1, 3) {
+                            lits.push((v, rng.chance(1, 2)));
+                        }
                     }
                 }
                 if let Some(cs) = cube(&mut s, &lits) {
